@@ -8,6 +8,9 @@ CfgAll   == {<<i, m, cap>> \in {1, 2} \X {2, 4} \X {0, 1, 2} : TRUE}
 (* trace validation: every configuration the harness uses; client goroutines 1..6 call Add as often as the trace says *)
 CfgTrace == Nat \X Nat \X Nat
 PTrace == <<1000, 1000, 1000, 1000, 1000, 1000>>
+One == 1
+Two == 2
+R2Trace == 16
 P3   == <<3>>
 P4   == <<4>>
 CfgOne4 == {<<1, 4, 0>>}
